@@ -204,7 +204,11 @@ def run_slot(sx, kind, manip):
     return f"slot{slot}"
 
 
-def run_angle(sx, slot_group):
+ANGLE_PINS = {"74": (Fraction(4, 5), Fraction(3, 5)), "-74": (Fraction(4, 5), Fraction(-3, 5)),
+              "254": (Fraction(-3, 5), Fraction(4, 5)), "-225": (Fraction(-5, 13), Fraction(-12, 13))}
+
+
+def run_angle(sx, slot_group, pin="74"):
     """Angle edge with a pinned sector angle on a concrete cube; sense must follow the user's direction"""
     slot = sx.choice("slot", 4) + 4 * slot_group
     P = sx.arr([[float(x) for x in c] for c in g1.CORNERS])
@@ -219,7 +223,7 @@ def run_angle(sx, slot_group):
     axis_id = next(k for k in range(3) if abs(dv[k]) < 0.5)
     axis = [0, 0, 0]
     axis[axis_id] = 2   # non-unit
-    c2, s2 = Fraction(4, 5), Fraction(3, 5)
+    c2, s2 = ANGLE_PINS[pin]                  # cos, sin of half the sector angle (degrees in the name)
     theta = sx.angle("theta", 2, c2, s2)
     data = cb.Angle(theta, axis)
     bottom = cb.Face([P[k] for k in range(4)], None)
@@ -374,6 +378,9 @@ def jobs(tier, seed):
             add("run_slot", f"{kind}|{m}", kind=kind, manip=m)
     for g in range(3):
         add("run_angle", f"angle|slots {4 * g}-{4 * g + 3}", slot_group=g)
+    for pin in ("-74", "254", "-225"):
+        for g in ((0, 2) if tier == "quick" else (0, 1, 2)):
+            add("run_angle", f"angle|slots {4 * g}-{4 * g + 3}|{pin} deg", slot_group=g, pin=pin)
     add("run_duplicate", "duplicate|same", same_data=True)
     add("run_duplicate", "duplicate|different", same_data=False)
     for case in ("collinear-arc", "line", "zero-length"):
